@@ -273,7 +273,18 @@ def zigzag_alternation(zz):
         src = srcs[0]
         chp = zz.posparams[0]
         start = src.args[0] if src.args else next((k.value for k in src.keywords if k.arg == "node"), None)
+        raw_start = start
         start = resolve_local(zz, start) if start is not None else None
+        if isinstance(start, ast.IfExp) and isinstance(raw_start, ast.Name) and isinstance(start.test, ast.Name) and start.test.id == chp \
+                and isinstance(start.orelse, ast.Constant) and start.orelse.value is None:
+            # `start = children[0] if children else None` followed by `if start is None: return` ahead of everything else
+            body = zz.node.body
+            guards_ = [i for i, st_ in enumerate(body) if isinstance(st_, ast.If) and not st_.orelse and len(st_.body) == 1
+                       and isinstance(st_.body[0], ast.Return) and st_.body[0].value is None
+                       and norm(st_.test) == "%s is None" % raw_start.id]
+            users = [i for i, st_ in enumerate(body) if any(x is src for x in ast.walk(st_))]
+            if guards_ and users and guards_[0] < users[0]:
+                start = start.body
         forest_ok = isinstance(start, ast.Name) and start.id == chp and _init_accepts_list_start(zz)
         if not forest_ok and (start is None or norm(start) != "%s[0]" % chp):
             return False, "the group iterator does not start at the start node (%s[0])" % chp, src
